@@ -588,3 +588,6 @@ def _items():
 
 
 ITEMS = _items()
+
+from contracts import reuse as _REUSE   # noqa: E402
+ITEMS.append(Item('second-use', None, [('catalogue', _REUSE.nat_second_use_for('C10'))], 'dataflows/helpers/resource_matcher.py::ResourceMatcher.__init__'))
